@@ -730,18 +730,22 @@ Definition d_line (x : xval) : option (list directive) :=
   | _ => None
   end.
 
-(** cfg = (L (N base) (N flags) (N platform) (N override) (N mount)); absent = base 1, override.
+(** cfg = (L (N base) (N flags) (N platform) (N override) (N mount) [(N h2)]); absent = base 1, override.
     base 0: [Extensions::new()] as it is — the case carries new()'s own rule set and server value;
     base 1: new() + with_csp + with_server_header(server, platform, override);
     base 2: [Extensions::empty()] + flags (1 with_csp, 2 with_no_referrer, 4 with_server_header) *)
 Definition d_cfg (x : option xval) : option (N * pkg_cfg) :=
   match x with
   | None => Some (1, cfg_new)
-  | Some (XL [XN base; XN flags; XN pl; XN ov; XN _]) =>
-      match base with
-      | 0 => Some (0, cfg_new)
-      | 1 => Some (1, mkCfg true true true (N.eqb pl 1) (N.eqb ov 1))
-      | _ => Some (2, mkCfg (N.testbit flags 0) (N.testbit flags 1) (N.testbit flags 2) (N.eqb pl 1) (N.eqb ov 1))
+  | Some (XL (XN base :: XN flags :: XN pl :: XN ov :: XN _ :: rest)) =>
+      match rest with
+      | [] | [XN _] =>          (* the optional sixth element: HTTP/2 instead of HTTP/1.1 — the same send path *)
+          match base with
+          | 0 => Some (0, cfg_new)
+          | 1 => Some (1, mkCfg true true true (N.eqb pl 1) (N.eqb ov 1))
+          | _ => Some (2, mkCfg (N.testbit flags 0) (N.testbit flags 1) (N.testbit flags 2) (N.eqb pl 1) (N.eqb ov 1))
+          end
+      | _ => None
       end
   | _ => None
   end.
